@@ -60,6 +60,20 @@ CLAIMED["C04"] = {
     "design": "DESIGN.md section 3 C04",
 }
 
+CLAIMED["C14"] = {
+    "text": "Bounded model checking of the real parse_args/fmtstr/fmtfuncs/copy_with_new_atts/new_with_atts_removed/"
+            "copy_with_new_str/shared_atts: colour numbers range over all integers, style values over both bools, run "
+            "lengths over all naturals (empty runs included); spellings, base layouts and operation sequences (length <= 2, "
+            "thorough 3) come from catalogues that the solver enumerates completely. Asserted against an independent "
+            "re-statement of the specification: exactly the named attributes change, later values override, text and "
+            "operands are untouched, spellings agree, bad specifications raise ValueError, shared_atts is sound.",
+    "note": "Trusted: CPython, CrossHair + z3, SegStr domain, our spec_parse oracle. A name valid only up to letter case may be "
+            "accepted or rejected with ValueError (both allowed). Attribute dictionaries are compared by what they display "
+            "(False == absent). Non-catalogue names are outside; value types other than str/int/bool are outside.",
+    "technique": TECH + "; solver-enumerated catalogues, symbolic colour numbers / bools / run lengths",
+    "design": "DESIGN.md section 3 C14",
+}
+
 NOT_YET = {}
 
 ALL = ["C%02d" % i for i in range(1, 21)]
